@@ -146,6 +146,15 @@ func cmdAgent(args []string) int {
 				ah.gateOn[k] = true
 			}
 			tp := ah.h.tp
+			tp.preLock = nil
+			if c.Gate && ah.gateOn["B"] {
+				// "B": park the operation before it asks for its lock (once)
+				tp.preLock = func() {
+					tp.preLock = nil
+					ah.gateCh <- event{"B"}
+					<-ah.contCh
+				}
+			}
 			if c.Gate {
 				tp.gate = func(ev event) {}
 				tp.postGate = func(ev event) {
